@@ -5,8 +5,10 @@ and signed; the property is evaluated on the *bytes* of the returned transaction
   * body byte slice of `tx.to_cbor()` (ref/ledger_ref.tx_parts) -> blake2b-256 -> every vkey witness verified with the
     pure-Python RFC 8032 verifier (ref/ed25519_ref.py); witness keys must be 32 bytes;
   * the set of required key hashes is recomputed from the body / witness-set bytes and the scenario's UTxO table
-    (inputs, collateral, required signers, native scripts in the witness set, certificates, withdrawals, voters) with key
-    hashes derived from the labels by ed25519_ref + hashlib — nothing from builder internals;
+    (inputs, collateral, required signers, native scripts — in builder.native_scripts, attached to an input / mint /
+    withdrawal / certificate, shipped in the witness set or read from a reference UTxO —, the key credential of every
+    certificate kind and pool owners, withdrawals, voters) with key hashes derived from the labels by ed25519_ref +
+    hashlib — nothing from builder internals;
   * coverage (every supplied key whose hash is required has a witness), minimality unless forced, forced => all sign;
   * placeholder witnesses: `_witness_count()` / `_build_fake_vkey_witnesses()` after build, and the count actually used
     by the last fee estimate (a spy on the builder instance), against the number of distinct required hashes; the
@@ -21,7 +23,7 @@ from __future__ import annotations
 import hashlib
 import logging
 
-from pycardano import (InvalidBefore, InvalidHereAfter, ScriptAll, ScriptAny, ScriptNofK, ScriptPubkey,
+from pycardano import (InvalidBefore, InvalidHereAfter, NativeScript, ScriptAll, ScriptAny, ScriptNofK, ScriptPubkey,
                        VerificationKeyHash, script_hash)
 from pycardano.certificate import AuthCommitteeHotCertificate, PoolRegistration, ResignCommitteeColdCertificate
 from pycardano.governance import GovActionId, Vote, Voter, VoterType
@@ -141,10 +143,6 @@ S.EXTRA_OPS.update({"c10_native_script": op_native, "c10_committee": op_committe
 
 # ---- the independent oracle: required key hashes read off the transaction bytes ------------------------------------------
 KEY_CERT_CRED = {0, 1, 2, 7, 8, 9, 10, 11, 12, 13, 14, 15, 16, 17, 18}   # cert[1] is a credential [0|1, hash]
-# sources the unchanged code does not collect -> finding id (a missing hash is excused only if ALL its sources are here)
-KNOWN_GAPS = {"cert:17": "KF-C10-drep-unreg", "cert:18": "KF-C10-drep-update", "cert:14": "KF-C10-committee-auth",
-              "cert:15": "KF-C10-committee-resign", "cert:3-owner": "KF-C10-pool-owner",
-              "attached-native": "KF-C10-attached-native"}
 
 
 def script_leaves_bytes(x, depth=0):
@@ -207,18 +205,17 @@ def oracle_required(sc, body_bytes, wit_bytes):
             add(khash(lab), "collateral")
     for h in B.required_signers:
         add(h, "signer")
-    # native scripts shipped in the witness set; told apart by how the scenario supplied them
-    field, attached = set(), set()
-    for o in sc["ops"]:
-        if o["op"] in ("native_script", "c10_native_script"):
-            field |= {khash(l) for l in spec_leaves(o["script"])}
-        elif o["op"] in ("script_input", "minting_script", "withdrawal_script", "certificate_script") \
-                and o.get("script_in", "witness") == "witness" and isinstance(o.get("script"), list):
-            attached |= {khash(l) for l in spec_leaves(o["script"])}
+    # native scripts: every way the scenario hands one to the builder (field, attached to an input / mint / withdrawal /
+    # certificate, directly or on a reference UTxO), cross-checked against the scripts shipped in the witness set
+    by_id = {u["id"]: u for u in sc["utxos"]}
+    for src, spec in native_specs(sc, by_id):
+        for l in spec_leaves(spec):
+            add(khash(l), src)
     ws = dict(R.dec(wit_bytes).pairs)
     for s in LR.unset(ws.get(1, [])):
         for h, _ in script_leaves_bytes(s):
-            add(h, "native" if h in field or h not in attached else "attached-native")
+            if h not in req or not any(x.startswith("native") for x in req[h]):
+                add(h, "native:witness-set-only")
     for c in B.certs:
         code = c[0]
         if code in KEY_CERT_CRED:
@@ -240,11 +237,24 @@ def oracle_required(sc, body_bytes, wit_bytes):
     return req
 
 
-def gap_of(sources):
-    """finding id if every source of the hash is a recorded gap of the collection, else None"""
-    if sources and all(s in KNOWN_GAPS for s in sources):
-        return KNOWN_GAPS[sorted(sources)[0]]
-    return None
+def native_specs(sc, by_id):
+    """(source, script spec) of every native script the scenario gives to the builder"""
+    out = []
+    for o in sc["ops"]:
+        k = o["op"]
+        ref = "-ref" if o.get("script_in") == "ref" else ""
+        if k in ("native_script", "c10_native_script"):
+            out.append(("native", o["script"]))
+        elif k == "script_input":
+            a = by_id[o["u"]]["addr"]          # the script that unlocks the input is the one its address names
+            if isinstance(a, list) and isinstance(a[1], list):
+                out.append(("native:input" + ref, a[1]))
+        elif k in ("minting_script", "withdrawal_script", "certificate_script"):
+            spec = by_id[o["ref_utxo"]].get("script") if ref else o.get("script")
+            if isinstance(spec, list):
+                out.append(("native:" + {"minting_script": "mint", "withdrawal_script": "withdrawal",
+                                         "certificate_script": "cert"}[k] + ref, spec))
+    return out
 
 
 # ---- model input: the builder's state after build ------------------------------------------------------------------------
@@ -307,6 +317,10 @@ def model_request(b, sc):
             "collaterals": [cred_json(u.output.address.payment_part) for u in b.collaterals],
             "required_signers": [h.payload.hex() for h in (b.required_signers or [])],
             "native_scripts": [script_json(s) for s in (b.native_scripts or [])],
+            "input_scripts": [script_json(s) for s in b._inputs_to_scripts.values() if isinstance(s, NativeScript)],
+            "mint_scripts": [script_json(s) for s, _ in b._minting_script_to_redeemers if isinstance(s, NativeScript)],
+            "withdrawal_scripts": [script_json(s) for s, _ in b._withdrawal_script_to_redeemers if isinstance(s, NativeScript)],
+            "cert_scripts": [script_json(s) for s, _ in b._certificate_script_to_redeemers if isinstance(s, NativeScript)],
             "certificates": [cert_json(c) for c in (b.certificates or [])],
             "withdrawals": [bytes(k).hex() for k in (b.withdrawals or {})],
             "voters": [cred_json(v.credential) for v in (b.voting_procedures or {})],
@@ -355,10 +369,8 @@ def check_tx(ctx, case):
         ctx.count("key:" + ("extended" if base_label(l).startswith("x") else "ordinary"))
         h = khash(l)
         if (force or h in req) and pub32(l) not in have:
-            fid = None if force else gap_of(req[h])
             ctx.violation(f"signing key {l} was supplied and its hash is required ({sorted(req.get(h, ['forced']))}) "
-                          "but the transaction carries no witness of it", case, pub32(l).hex(), sorted(x.hex() for x in have),
-                          finding=fid)
+                          "but the transaction carries no witness of it", case, pub32(l).hex(), sorted(x.hex() for x in have))
         ctx.count("supplied:" + ("required" if h in req else "unrelated"))
     for v in have:
         if v not in by_pub:
@@ -369,17 +381,13 @@ def check_tx(ctx, case):
 
     # (3) placeholder witnesses
     ov = b.witness_override
-    gaps = {h for h, s in req.items() if gap_of(s)}
     count, fake = b._witness_count(), b._build_fake_vkey_witnesses()
     used = r.c10_fake[n_build_calls - 1] if n_build_calls else None
     if not ov:
         for what, got in (("_witness_count()", count), ("placeholder witnesses of the last fee estimate", used)):
             if got is not None and got != len(req):
-                fid = None
-                if got == len(req) - len(gaps) and gaps:
-                    fid = gap_of(req[sorted(gaps)[0]])
                 ctx.violation(f"{what} = {got}, but the transaction has {len(req)} distinct required key hashes", case,
-                              len(req), got, finding=fid)
+                              {"n": len(req), "required": {h.hex(): sorted(s) for h, s in req.items()}}, got)
     else:
         ctx.count("override")
         if count != ov:
@@ -482,6 +490,7 @@ STAKE_CERTS = ["stake_reg", "stake_dereg", "stake_deleg", "reg_conway", "dereg_c
                "reg_deleg", "reg_vote_deleg", "reg_deleg_vote", "reg_drep", "unreg_drep", "update_drep"]
 NS_ADDR = ["all", [["pk", "k5"], ["nofk", 1, [["pk", "k6"], ["pk", "x2"]]]]]
 MINT_NS = ["any", [["pk", "k6"], ["all", [["pk", "k4"], ["pk", "x2"]]]]]
+WD_NS = ["nofk", 2, [["pk", "s4"], ["pk", "k5"], ["any", [["pk", "x1"]]]]]
 
 
 def utxo(uid, addr, coin, **kw):
@@ -504,7 +513,9 @@ def gen_tx(rng):
              utxo("a5", "x1+s2", 12_000_000), utxo("a6", "k1", 9_000_000), utxo("a7", "x0", 7_000_000),
              utxo("c0", "k4", 10_000_000), utxo("c1", "x2+s3", 11_000_000),
              utxo("n0", ["script", NS_ADDR], 6_000_000),
-             utxo("p0", ["script", "p2:c10"], 9_000_000, datum_hash=7)]
+             utxo("p0", ["script", "p2:c10"], 9_000_000, datum_hash=7),
+             utxo("r0", "k5", 3_000_000, script=WD_NS), utxo("r1", "k5", 3_100_000, script=NS_ADDR),
+             utxo("r2", "k5", 3_200_000, script=MINT_NS)]
     sc = {"utxos": utxos, "address_utxos": {"k1": ["a1", "a6"], "x0": ["a4", "a7"]}, "build": {"change": "k0"}}
     ops = [{"op": "c10_spy"}, {"op": "add_input", "u": "a0"}]
     for u in ("a1", "a2", "a3", "a4", "a5"):
@@ -520,11 +531,16 @@ def gen_tx(rng):
         for u in rng.sample(["c0", "c1", "a3"], rng.randint(1, 2)):
             if {"op": "add_input", "u": u} not in ops:
                 ops.append({"op": "collateral", "u": u})
-    if rng.random() < 0.07:
-        ops.append({"op": "script_input", "u": "n0", "script_in": "witness", "script": NS_ADDR})
+    if rng.random() < 0.09:
+        if rng.random() < 0.6:
+            ops.append({"op": "script_input", "u": "n0", "script_in": "witness", "script": NS_ADDR})
+        else:
+            ops.append({"op": "script_input", "u": "n0", "script_in": "ref", "ref_utxo": "r1"})
     r = rng.random()
-    if r < 0.07:
+    if r < 0.05:
         ops += [{"op": "mint", "assets": [[MINT_NS, "c1", 3]]}, {"op": "minting_script", "script": MINT_NS}]
+    elif r < 0.08:
+        ops += [{"op": "mint", "assets": [[MINT_NS, "c1", 3]]}, {"op": "minting_script", "script_in": "ref", "ref_utxo": "r2"}]
     elif r < 0.15:
         ops += [{"op": "mint", "assets": [[MINT_NS, "c1", 3]]}, {"op": "native_script", "script": MINT_NS}]
     if rng.random() < 0.25:
@@ -555,6 +571,20 @@ def gen_tx(rng):
                 ops.append({"op": "withdraw", "stake": rng.choice(STAKE + ["s4"]), "amount": rng.randint(0, 5_000_000)})
             else:
                 ops.append({"op": "withdraw", "script": gen_script(rng, 2, False), "amount": rng.randint(0, 500)})
+    if rng.random() < 0.10:     # script withdrawal with its native script attached (directly or by reference)
+        spec = WD_NS if rng.random() < 0.5 else gen_script(rng, 3, False)
+        ops.append({"op": "withdraw", "script": spec, "amount": rng.randint(0, 500)})
+        if spec is WD_NS and rng.random() < 0.5:
+            ops.append({"op": "withdrawal_script", "script_in": "ref", "ref_utxo": "r0"})
+        else:
+            ops.append({"op": "withdrawal_script", "script": spec})
+    if rng.random() < 0.10:     # certificate with a script credential and its native script attached
+        spec = WD_NS if rng.random() < 0.5 else gen_script(rng, 3, False)
+        ops.append({"op": "cert", "kind": rng.choice(STAKE_CERTS), "cred": ["script", spec], "coin": 2_000_000})
+        if spec is WD_NS and rng.random() < 0.5:
+            ops.append({"op": "certificate_script", "script_in": "ref", "ref_utxo": "r0"})
+        else:
+            ops.append({"op": "certificate_script", "script": spec})
     if rng.random() < 0.25:
         for n in range(rng.randint(1, 2)):
             if rng.random() < 0.8:
@@ -583,10 +613,13 @@ def gen_tx(rng):
                 if k not in ("op", "kind", "type", "script_in", "u"):
                     walk(y)
     walk(ops)
-    used_utxos = {o["u"] for o in ops if o["op"] in ("add_input", "collateral")}
+    used_utxos = {o["u"] for o in ops if o["op"] in ("add_input", "collateral", "script_input")}
+    ref_utxos = {o["ref_utxo"] for o in ops if "ref_utxo" in o}
     for u in utxos:
         if u["id"] in used_utxos or u["id"] in ("a1", "a6", "a4", "a7", "a0"):
             walk(u["addr"])
+        if u["id"] in ref_utxos:
+            walk(u.get("script"))
     sign = [l for l in dict.fromkeys(mentioned) if rng.random() < 0.85]
     sign += rng.sample(ALL_LABELS, rng.randint(0, 2))
     if "k0" not in sign and rng.random() < 0.9:
@@ -603,23 +636,35 @@ def gen_tx(rng):
 
 
 def corpus():
-    """one scenario per source of required key hashes the unchanged code does not collect (each a KNOWN-FINDING), the
-    repaired n-of-k case, and every certificate kind once"""
+    """regression scenarios of the repaired collection defects, every way of attaching a native script, every
+    certificate kind once, votes / withdrawals, the placeholder generator at its boundaries"""
     def sc(ops, sign, **kw):
-        return {"kind": "tx", "sc": {"utxos": [utxo("a0", "k0", 2_000_000_000), utxo("n0", ["script", NS_ADDR], 6_000_000)],
+        return {"kind": "tx", "sc": {"utxos": [utxo("a0", "k0", 2_000_000_000), utxo("n0", ["script", NS_ADDR], 6_000_000),
+                                               utxo("r0", "k5", 3_000_000, script=WD_NS),
+                                               utxo("r1", "k5", 3_100_000, script=NS_ADDR)],
                                      "address_utxos": {}, "build": {"change": "k0"},
                                      "ops": [{"op": "c10_spy"}, {"op": "add_input", "u": "a0"}] + ops
                                      + [{"op": "add_output", "addr": "k6", "coin": 2_000_000}], "sign": sign, **kw}}
     out = [
+        # regression cases of the repaired defects (FX-C10-nofk, KF-C10-* now `fixed`): plain violations if they recur
         sc([{"op": "native_script", "script": ["nofk", 1, [["pk", "k1"], ["all", [["pk", "x1"], ["nofk", 2, [["pk", "k2"], ["any", [["pk", "k3"]]]]]]]]]}],
-           ["k0", "k1", "x1", "k2", "k3"]),                                                            # FX-C10-nofk (repaired)
-        sc([{"op": "cert", "kind": "unreg_drep", "cred": "s1", "coin": 2_000_000}], ["k0", "s1"]),     # KF-C10-drep-unreg
-        sc([{"op": "cert", "kind": "update_drep", "cred": "s1"}], ["k0", "s1"]),                       # KF-C10-drep-update
-        sc([{"op": "c10_committee", "kind": "auth_hot", "cred": "s1"}], ["k0", "s1"]),                 # KF-C10-committee-auth
-        sc([{"op": "c10_committee", "kind": "resign_cold", "cred": "s1"}], ["k0", "s1"]),              # KF-C10-committee-resign
-        sc([{"op": "c10_pool_reg", "cred": "s1", "owners": ["s1", "s2"]}], ["k0", "s1", "s2"]),        # KF-C10-pool-owner
-        sc([{"op": "script_input", "u": "n0", "script_in": "witness", "script": NS_ADDR}], ["k0", "k5", "k6"]),  # KF-C10-attached-native
+           ["k0", "k1", "x1", "k2", "k3"]),
+        sc([{"op": "cert", "kind": "unreg_drep", "cred": "s1", "coin": 2_000_000}], ["k0", "s1"]),
+        sc([{"op": "cert", "kind": "update_drep", "cred": "s1"}], ["k0", "s1"]),
+        sc([{"op": "c10_committee", "kind": "auth_hot", "cred": "s1"}], ["k0", "s1"]),
+        sc([{"op": "c10_committee", "kind": "resign_cold", "cred": "s1"}], ["k0", "s1"]),
+        sc([{"op": "c10_pool_reg", "cred": "s1", "owners": ["s1", "s2"]}], ["k0", "s1", "s2"]),
+        sc([{"op": "script_input", "u": "n0", "script_in": "witness", "script": NS_ADDR}], ["k0", "k5", "k6"]),
         sc([{"op": "mint", "assets": [[MINT_NS, "c1", 3]]}, {"op": "minting_script", "script": MINT_NS}], ["k0", "k6"]),
+        # the remaining ways of attaching a native script
+        sc([{"op": "script_input", "u": "n0", "script_in": "ref", "ref_utxo": "r1"}], ["k0", "k5", "x2"]),
+        sc([{"op": "withdraw", "script": WD_NS, "amount": 9}, {"op": "withdrawal_script", "script": WD_NS}], ["k0", "s4", "k5"]),
+        sc([{"op": "withdraw", "script": WD_NS, "amount": 9}, {"op": "withdrawal_script", "script_in": "ref", "ref_utxo": "r0"}],
+           ["k0", "s4", "x1"]),
+        sc([{"op": "cert", "kind": "stake_deleg", "cred": ["script", WD_NS]}, {"op": "certificate_script", "script": WD_NS}],
+           ["k0", "k5", "x1"]),
+        sc([{"op": "cert", "kind": "dereg_conway", "cred": ["script", WD_NS], "coin": 2_000_000},
+            {"op": "certificate_script", "script_in": "ref", "ref_utxo": "r0"}], ["k0", "s4", "k5", "x1"]),
     ]
     for k in STAKE_CERTS + ["pool_retire", "pool_reg"]:
         out.append(sc([{"op": "cert", "kind": k, "cred": "s2", "coin": 2_000_000}], ["s2", "k0", "k1"]))
@@ -634,15 +679,18 @@ def run(ctx):
     ctx.rule = ("builder scenarios over 15 key labels (10 ordinary payment/stake keys, 3 BIP32-extended payment keys, 2 "
                 "extra): 1-6 key-locked inputs incl. coin-selected ones, optional Plutus input with explicit or automatic "
                 "collateral, native-script-locked input, native scripts generated to depth 4 (all/any/n-of-k/time locks) "
-                "in builder.native_scripts or attached to an input / mint, 0-2 required signers, 0-3 certificates out of "
+                "in builder.native_scripts or attached to an input / mint / withdrawal / certificate (directly or on a "
+                "reference UTxO), 0-2 required signers, 0-3 certificates out of "
                 "17 kinds with key or script credentials, key and script withdrawals, drep/pool/committee key voters and "
                 "script voters, proposals, witness_override in {0,1,2,5,12}; signing-key lists = ~85% of the mentioned "
                 "labels + 0-2 unrelated + duplicates + the same secret under another key class, shuffled; force_skeys 20%. "
                 "Non-trivial = distinct scenario with >= 2 required hashes or >= 2 supplied keys.  Separate stream: "
                 "200+ keys x random messages signed and verified / re-derived independently.")
     ctx.assumptions = [
-        "required key hashes per the property text: key credentials of ALL certificate kinds, pool owners and native "
-        "scripts shipped in the witness set count as required (the ledger additionally exempts legacy stake registration)",
+        "required key hashes per the property text: key credentials of ALL certificate kinds, pool owners and every "
+        "native script handed to the builder (witness set or reference UTxO) count as required (the ledger additionally "
+        "exempts legacy stake registration)",
+        "all_scripts keeps one script per script hash; hash-equal scripts are taken to be equal (no blake2b collision)",
         "extended signing keys are consistent: payload[64:96] = [kL]B (true of keys made by from_hdwallet; checked per key)",
         "distinct supplied keys yield distinct witnesses (OrderedSet de-duplication by str() is then a no-op)",
         "more than 256 placeholder witnesses are out of scope: fakeWitness 256 = fakeWitness 0 (proved), a transaction "
@@ -657,7 +705,7 @@ def run(ctx):
     for c in corpus():
         dispatch(ctx, c)
     rng = ctx.rng
-    for _ in range(ctx.budget(150, 3000)):   # ~0.3 s per scenario: pycardano validates and re-serializes a lot
+    for _ in range(ctx.budget(130, 3000)):   # ~0.3 s per scenario: pycardano validates and re-serializes a lot
         dispatch(ctx, gen_tx(rng))
     nkeys = ctx.budget(60, 400)
     for i in range(ctx.budget(260, 6000)):
